@@ -44,7 +44,7 @@ def vam_dict(sender, kind=None, cid=0, reason=None, near=True):
     return d
 
 
-ALPHABET = [("role_off",), ("role_on",), ("create",), ("join", 77), ("cancel",), ("leave",), ("breakup",), ("rx", "plain", 900), ("rx", "info77", 500), ("rx", "info88", 501),
+ALPHABET = [("role_off",), ("role_on",), ("create",), ("join", 77), ("cancel",), ("leave",), ("breakup",), ("rx", "plain", 900), ("rx", "info77", 500), ("rx", "info88", 501), ("rx", "info77", 502),
             ("rx", "join_own", 901), ("rx", "breakup_leader", 500), ("rx", "breakup_cpm", 500), ("rx", "plain_leader", 500), ("update", 0.05), ("update", 0.5), ("update", 1.0), ("update", 3.1),
             ("near3",)]
 
